@@ -293,6 +293,12 @@ func runC35(r *simkit.Run) {
 		if n > 0 && tp.Chance(1, 6) {
 			l = append(l, c35entry{text: " ", prefix: -2}) // a blank entry is skipped
 		}
+		if n == 0 && tp.Chance(1, 2) {
+			// nothing but blank entries: the list is empty
+			for i := 0; i < tp.Range(1, 3); i++ {
+				l = append(l, c35entry{text: []string{"", " ", "\t"}[tp.Choose(3)], prefix: -2})
+			}
+		}
 		return l
 	}
 	list := drawList()
